@@ -7,7 +7,7 @@ const { canonValue, diff, diffClass, stable } = require('../lib/canon');
 const E = require('../lib/espace');
 
 const { SYM } = require('../lib/tsyms');
-const L_HOSTS = ['div', 'frag', 'Fragment', 'FragmentI', 'FragmentAlias2', 'KeepAlive', 'iiconPat'];
+const L_HOSTS = ['div', 'frag', 'Fragment', 'FragmentI', 'FragmentAlias2', 'KeepAlive', 'iiconPat', 'iiconPat2'];
 const L_CHILDREN = Object.keys(E.CHILDREN);
 
 // earlier statements (C02 is about one element, but its lowering must not depend on what was lowered before it)
@@ -28,7 +28,7 @@ function spaces(tier) {
   return [
     {
       name: 'T:text-strings',
-      bounds: { alphabet: SYM.map((s) => s[0]), max_length: tLen, placements: ['only child', 'between expression containers', 'between elements'] },
+      bounds: { alphabet: SYM.map((s) => s[0]), max_length: tLen, placements: ['only child', 'between expression containers', 'between elements', 'only child of a fragment', 'between a comment container and an empty container', 'only child of a component (default slot content)'] },
       *gen() { for (const s of sequences(SYM.length, tLen)) yield { sp: 'T', s }; },
     },
     {
@@ -73,13 +73,16 @@ function requests(c) {
     const src = E.PRELUDE +
       `__out.only = () => <div>${t}</div>;\n` +
       `__out.between = () => <div>{x}${t}{y}</div>;\n` +
-      `__out.elems = () => <div><b/>${t}<i/></div>;\n`;
+      `__out.elems = () => <div><b/>${t}<i/></div>;\n` +
+      `__out.frag = () => <>${t}</>;\n` +
+      `__out.cmts = () => <div>{/* c */}${t}{}</div>;\n` +
+      `__out.slot = () => <Comp>${t}</Comp>;\n`;
     return [{ src, want: ['eval'], opts: '{}' }];
   }
   const h = E.HOSTS[c.host];
   const jsx = E.renderJsx(c.host, [], c.ch.map((k, i) => (c.w && c.w[0] === i ? E.wrapChild(E.CHILDREN[k].src, c.w[1]) : E.CHILDREN[k].src)));
   const mod = E.renderModule(c.host, jsx);
-  return [{ src: c.pre ? mod.replace('__out.mk =', PRIMERS[c.pre] + '\n__out.mk =') : mod, ts: !!c.w, want: ['eval'], opts: E.optsJson({ pattern: !!h.pattern }) }];
+  return [{ src: c.pre ? mod.replace('__out.mk =', PRIMERS[c.pre] + '\n__out.mk =') : mod, ts: !!c.w, want: ['eval'], opts: E.optsJson({ pattern: h.pattern }) }];
 }
 
 const EL = (t) => ({ __expectVNode: { type: 'tag:' + t, props: null, children: null } });
@@ -109,7 +112,19 @@ function judge(c, resps) {
       const a = probe('only', tx);
       const b = probe('between', [env.bound.x, ...tx, env.bound.y]);
       const d = probe('elems', [EL('b'), ...tx, EL('i')]);
-      obs = stable([a, b, d]);
+      const f = probe('frag', tx);
+      const g = probe('cmts', tx);
+      // as the only child of a component the text is the content of the default slot (no slot at all when nothing is left)
+      let sl = null;
+      try {
+        const o = canonValue(out.slot(), ctx, []);
+        sl = o && o.children;
+        const ret = sl && sl.slots && sl.slots.default ? sl.slots.default.ret : sl;
+        const e = tx.length ? tx.map((x) => canonValue(x, ctx, [])) : null;
+        const dd = diff(e, ret);
+        if (dd) viol.push({ clause: 'slot', diff: diffClass(dd), msg: `text as the only child of a component: default slot content differs at ${dd.path}`, expected: e, observed: sl });
+      } catch (e) { viol.push({ clause: 'slot', diff: 'exception:' + e.name, msg: errStr(e) }); }
+      obs = stable([a, b, d, f, g, sl]);
     } else {
       const exp = [];
       for (const k of c.ch) exp.push(...E.CHILDREN[k].m(env));
@@ -117,7 +132,7 @@ function judge(c, resps) {
       obs = stable(a);
     }
   });
-  return { viol, obs, nontrivial: c.sp === 'T' ? c.s.length > 0 : c.ch.length > 0, clauses: c.sp === 'T' ? ['only', 'between', 'elems'] : ['mk'] };
+  return { viol, obs, nontrivial: c.sp === 'T' ? c.s.length > 0 : c.ch.length > 0, clauses: c.sp === 'T' ? ['only', 'between', 'elems', 'frag', 'cmts', 'slot'] : ['mk'] };
 }
 
 function* shrink(c) {
